@@ -10,7 +10,7 @@
    The property's clauses that the faithful model FALSIFIES are kept visible as Definitions
    (slash_rewards_kept_always, slash_scaled_value_kept) with their refutations (findings F8, F9) and are
    proved under the negation of the class predicate the check evaluates (slash_floors_total_to_zero). *)
-From Verif Require Import Base OMap Bank Dec Staking StakingInv Chk14 StakingHist Chk16 Chk15 Chk14M Chk16M.
+From Verif Require Import Base OMap Bank Dec Staking StakingInv Chk14 StakingHist Chk16 Chk15 Chk14M Chk16M Chk15H Chk15L Chk16W.
 Local Open Scope N_scope.
 
 (* a fraction above one or an unknown validator is rejected (and a rejected call keeps nothing: C01) *)
@@ -107,18 +107,29 @@ Theorem slash_rewards_kept_partial su w0 w v p w' :
 Proof. exact (slash_rewards_kept_guarded_lemma su w0 w v p w'). Qed.
 Print Assumptions slash_rewards_kept_partial.
 
-(* the oracle on the model's own run, for ALL scenarios and histories within the arithmetic bounds: of the
-   C16 clauses — no panic (1), failed calls change nothing (2), payouts of scaled queue entries (8), invalid
-   slash rejected (20), valid slash succeeds (28), never increases (21), frame (22), lower bound (23), accrued
-   rewards kept (25), p = 1 removes (26), genesis (0) — the ONLY failures are clause-23 / clause-25 failures at
-   a slash that floors the validator's total to zero in a reachable world: exactly the two known classes
-   DriftWipe (F9) and TotalSlashWithRewards (F8).  (Clause 24, exactness while the oracle believes all shares
-   whole, is evaluated on the implementation only.) *)
+(* "whole and drift-free" (whole_ok s v: every share of validator v is a whole number of tokens AND the
+   validator's total equals the sum of the shares) is kept by a slash of ANY validator provided the scaled values
+   (1 - p) * displayed of the slashed validator are whole — and by every other operation (Chk16W.wh_step); it is
+   what justifies the oracle's bookkeeping of "validators whose shares are still whole" (o_frac) *)
+Theorem slash_keeps_whole_and_driftfree P now s v p s' v' :
+  stakers_ok s -> exec_slash P now s v p = SOk s' -> whole_ok s v' ->
+  (v' = v -> forall d, (disp s d v * (D18 - p)) mod D18 = 0) -> whole_ok s' v'.
+Proof. exact (slash_whole P now s v p s' v'). Qed.
+Print Assumptions slash_keeps_whole_and_driftfree.
+
+(* the oracle on the model's own run, for ALL scenarios and histories within the arithmetic bounds, ALL TWELVE
+   clauses the check c16 evaluates (C16_clauses): no panic (1), failed calls change nothing (2), payouts of scaled
+   queue entries (8), invalid slash rejected (20), valid slash succeeds (28), never increases (21), frame (22),
+   lower bound (23), upper bound / exactness while the shares are whole (24), accrued rewards kept (25), p = 1
+   removes (26), genesis (0): the ONLY failures are clause-23 / clause-25 failures at a slash that floors the
+   validator's total to zero in a reachable world — exactly the two known classes DriftWipe (F9) and
+   TotalSlashWithRewards (F8).  Clause 24 never fails: along every history, every validator the oracle has not
+   marked fractional is whole and drift-free. *)
 Theorem C16_model_ok su ops w0 m0 :
   setup_ok su -> NoDup (acct_ids su) -> Forall (scoped su) ops ->
   init_world su = SOk w0 -> model_snap su w0 = SOk m0 -> clean (model_run su w0 m0 ops) ->
-  Forall (known16_somewhere su w0 ops) (filter (in_set C16m) (oracle su ops m0 (map fst (model_run su w0 m0 ops)))).
-Proof. exact (model_ok_16_lemma su ops w0 m0). Qed.
+  Forall (known16_somewhere su w0 ops) (filter (in_set C16_clauses) (oracle su ops m0 (map fst (model_run su w0 m0 ops)))).
+Proof. exact (model_ok_16_full_lemma su ops w0 m0). Qed.
 Print Assumptions C16_model_ok.
 
 (* ---------- non-vacuity ---------- *)
@@ -176,10 +187,14 @@ Example ex16_model_ok_hyps :
   model_snap ex16_su ex16_w0 = SOk ex16_m0 /\ clean (model_run ex16_su ex16_w0 ex16_m0 ex16_ops2) /\
   map (fun x : oc * snap * world => fst (fst x)) ex16_run2 = [OOk; OOk; OOk; OOk; OOk; OOk; OOk; OOk; OErr; OOk; OOk; OOk] /\
   (* the total slash of validator 2 loses delegator 1's accrued reward there: one known-class failure *)
-  map (fun kf : N * fail => (fst kf, fst (fst (snd kf)))) (filter (in_set C16m) (oracle ex16_su ex16_ops2 ex16_m0 (map fst ex16_run2))) = [(11, 25)].
+  map (fun kf : N * fail => (fst kf, fst (fst (snd kf)))) (filter (in_set C16_clauses) (oracle ex16_su ex16_ops2 ex16_m0 (map fst ex16_run2))) = [(11, 25)] /\
+  (* the world before the fractional slash is whole and drift-free for validator 1, and 145 * (1 - p) is not whole *)
+  whole_ok (w_st ex16_w) 1 /\ (disp (w_st ex16_w) 1 1 * (D18 - ex16_p)) mod D18 <> 0.
 Proof.
   split; [apply setup_okb; vm_compute; reflexivity|]. split; [apply nodupb_ok; vm_compute; reflexivity|].
   split; [apply scopedb_ok; vm_compute; reflexivity|]. split; [vm_compute; reflexivity|].
-  split; [|split; vm_compute; reflexivity].
-  rewrite ex16_run2_eq. apply cleanb_ok. vm_compute. reflexivity.
+  split; [rewrite ex16_run2_eq; apply cleanb_ok; vm_compute; reflexivity|].
+  split; [vm_compute; reflexivity|]. split; [vm_compute; reflexivity|]. split.
+  - apply whole_okb_ok. vm_compute. reflexivity.
+  - vm_compute. discriminate.
 Qed.
